@@ -149,4 +149,22 @@ AlphaC2063Q == BaseEvs3Q
    \cup {J(1, "6", "6Yc", <<1, 5>>), A(1, "6", "6Tc", <<1, 1>>), A(1, "6", "6Tx", <<1>>), A(1, "6", "6Te", <<1>>)}
    \cup {G(t, "6", m) : t \in {2, 3}, m \in {"6W[", "6W]"}}
    \cup {G(2, "6", "6Pr"), G(2, "6", "6Pp"), G(3, "6", "6Pa"), G(3, "6", "6Pp")}
+\* two looms (the rows of the breakdown trace are the physical CPUs of ALL looms, numbered densely;
+\* the virtual CPU of the first loom sits between them in the CPU numbering)
+Cpus2L == <<Cpu(1, 0, 10, FALSE), Cpu(1, 1, 11, FALSE), Cpu(1, -1, -1, TRUE), Cpu(2, 0, 20, FALSE), Cpu(2, -1, -1, TRUE)>>
+Ths2L == <<ThR(101, 1001, 1, 1, -1), ThR(201, 2001, 2, 2, -1)>>
+BaseEvs2L == {E(1, "OHx", <<0, 101, 7>>), E(1, "OHx", <<1, 101, 7>>), E(2, "OHx", <<0, 201, 7>>),
+              E(1, "OHe", <<>>), E(2, "OHe", <<>>), E(1, "OAs", <<1>>)}
+SysC2062L == SysBD("6", Ths2L, Cpus2L)
+AlphaC2062L == BaseEvs2L
+   \cup {J(t, "6", "6Yc", <<1, 4 + t>>) : t \in {1, 2}} \cup {A(t, "6", "6Tc", <<1, 1>>) : t \in {1, 2}}
+   \cup {A(t, "6", m, <<1>>) : t \in {1, 2}, m \in {"6Tx", "6Te"}}
+   \cup {G(t, "6", m) : t \in {1, 2}, m \in {"6W[", "6W]"}}
+   \cup {G(2, "6", "6Pr"), G(2, "6", "6Pp")}
+SysC20V2L == SysBD("V", Ths2L, Cpus2L)
+AlphaC20V2L == BaseEvs2L
+   \cup {J(t, "V", "VYc", <<1, 4 + t>>) : t \in {1, 2}} \cup {A(t, "V", "VTc", <<1, 1>>) : t \in {1, 2}}
+   \cup {A(t, "V", m, <<1, 0>>) : t \in {1, 2}, m \in {"VTx", "VTe"}}
+   \cup {G(t, "V", m) : t \in {1, 2}, m \in {"VSh", "VSf"}}
+   \cup {G(2, "V", "VPr"), G(2, "V", "VPp")}
 =============================================================================
